@@ -4323,7 +4323,10 @@ class Macro:
                                 bound = parse_ctx._lookup_named_entity(kind, name)
                             except UndefinedReferenceError:
                                 continue
-                            hidden = name.update(value=f"{name.value}#{len(bound_arguments)}")
+                            # (numbered across all calls: a tree bound here may be evaluated under frames of deeper calls,
+                            #  whose own hidden names must not be mistaken for this one)
+                            parse_ctx.hidden_name_count += 1
+                            hidden = name.update(value=f"{name.value}#{parse_ctx.hidden_name_count}")
                             bound_arguments[(kind, hidden.value)] = bound
                             return lark.Tree(tree.data, [hidden] + [resolve_callers_arguments(x) if isinstance(x, lark.Tree) else x for x in tree.children[1:]], tree.meta)
                     return lark.Tree(tree.data, [resolve_callers_arguments(x) if isinstance(x, lark.Tree) else x for x in tree.children], tree.meta)
@@ -4363,6 +4366,7 @@ class ParseCtx:
         self.innermost_break_handler = None  # just a lambda: Action
         
         self.bound_argument_stack: List[Dict[Tuple[MacroArgumentKind, str], lark.Tree]] = []
+        self.hidden_name_count = 0  # names invented while binding macro arguments
         self.active_macro: Optional[MacroInstance] = None
 
         self.yield_codes = []
